@@ -67,6 +67,24 @@ fn names(n: usize) -> Vec<String> {
 fn input_text(c: &C11Case) -> String {
     let mut t = String::new();
     for (ci, n) in names(c.nchrom).iter().enumerate() {
+        if c.nchrom >= 6 && !c.bed && ci == 1 {
+            // 2 bases of 2^52: this chromosome's sum is 2^53, so the f64 total summary depends on
+            // the order in which per-chromosome sums are added (1.0 is absorbed by 2^53)
+            t.push_str(&format!("{}\t0\t2\t4503599627370496\n", n));
+            if c.sweep_threads.is_some() {
+                // a long chromosome: on real runtimes it finishes after the ones queued behind it
+                for i in 0..3000u32 {
+                    t.push_str(&format!("{}\t{}\t{}\t0\n", n, 8192 + 2 * i, 8193 + 2 * i));
+                }
+            }
+            continue;
+        }
+        if c.nchrom >= 6 && !c.bed {
+            for i in 0..c.items.min(3) {
+                t.push_str(&format!("{}\t{}\t{}\t1\n", n, 2 * i, 2 * i + 1));
+            }
+            continue;
+        }
         for i in 0..c.items {
             let s = 3 * i + ci as u32;
             if c.bed {
@@ -94,7 +112,7 @@ fn execute(c: &C11Case, path: &std::path::Path, yields: &[usize], rt: Rt) -> (Re
     let ctl = Arc::new(Ctl { yields: yields.to_vec(), state: Mutex::new((0, vec![])) });
     set_controller(Some(ctl.clone()));
     let sink = Sink::new();
-    let sizes: std::collections::HashMap<String, u32> = names(c.nchrom).into_iter().map(|n| (n, 3 * c.items + 20)).collect();
+    let sizes: std::collections::HashMap<String, u32> = names(c.nchrom).into_iter().map(|n| (n, (3 * c.items + 20).max(20000))).collect();
     let runtime = make_runtime(rt);
     let text = input_text(c);
     let res = guarded(|| -> Result<(), String> {
@@ -192,6 +210,10 @@ impl Check for C11 {
                         }
                         v.push(C11Case { bed, nchrom, items: 3, ips, source, two_pass, chan, inmemory, bound: 2, sweep_threads: None });
                     }
+                    if source == Source::ParallelFile {
+                        // more chromosomes than the parallel source queues at once (4 + 1)
+                        v.push(C11Case { bed, nchrom: 6, items: 2, ips: 1, source, two_pass, chan: 100, inmemory: true, bound: 2, sweep_threads: None });
+                    }
                     if !quick {
                         // bound 3 on the smallest scenario of each kind
                         v.push(C11Case { bed, nchrom: 2, items: 2, ips: 1, source, two_pass, chan: 0, inmemory: true, bound: 3, sweep_threads: None });
@@ -209,7 +231,7 @@ impl Check for C11 {
                             if quick && (t + chan) % 2 == 1 {
                                 continue;
                             }
-                            v.push(C11Case { bed, nchrom: 4, items: 40, ips: 4, source, two_pass, chan, inmemory, bound: 0, sweep_threads: Some(t) });
+                            v.push(C11Case { bed, nchrom: 8, items: 40, ips: 4, source, two_pass, chan, inmemory, bound: 0, sweep_threads: Some(t) });
                         }
                     }
                 }
